@@ -7,7 +7,9 @@ decodes its answer into the same observation shape that `Sched.observe` produces
 Case   {"cfg": {"writer": "blocking"|"awaitable", "hook": "default"|"quiet"|"raises", "wfail": None|k},
         "evs": [event, ...]}
 Event  ["recv", frame] | ["task", t] | ["cb", t] | ["jstart", j] | ["jfin", j] | ["write"] |
-       ["exitcb"] | ["send", id]
+       ["exitcb"] | ["send", id] | ["scancel", id] | ["ocancel", o]
+         (the last two are Model/EndpointX.v's ServerCancel i = cancel() on _request_futures[i] without
+          popping it, and OutCancel o = the caller cancels the o-th future send_request returned)
          t / j = index of the handler task / pool work item in creation order
 Frame  {"t": "garbage", "v": 0..5}
        {"t": "req",   "id": id, "ver": bool, "ps": "ok"|"bad"|"fail", "m": rmethod, "np": bool}
@@ -209,7 +211,7 @@ def decode_frame(data):
 class _Job:
     def __init__(self, fut, fn, args, ctx):
         self.fut, self.fn, self.args, self.ctx = fut, fn, args, ctx
-        self.started = self.finished = False
+        self.started = self.finished = self.dropped = False
         self.at_gate = threading.Event()
         self.release = threading.Event()
         self.thread = None
@@ -260,6 +262,7 @@ class Sched:
         self.seen = [0, 0, 0]
         self.anomalies = []
         self.orphans = []
+        self.out_futs = []                   # futures returned by send_request, in order
         self.sentinels = []                  # weak references to the sentinels created inside handlers
         self.open_tasks, self.open_jobs = set(), []
         S = self
@@ -462,7 +465,15 @@ class Sched:
 
     # ---- pool plumbing
     def _start_job(self, job):
-        if job.started or job.fut is None or not job.fut.set_running_or_notify_cancel():
+        if job.started or job.dropped or job.fut is None:
+            return False
+        if job.fut.cancelled():
+            # a worker dequeues a cancelled work item once, notifies and drops it
+            job.dropped = True
+            job.fut.set_running_or_notify_cancel()
+            return False
+        if not job.fut.set_running_or_notify_cancel():
+            job.dropped = True
             return False
         job.started = True
 
@@ -539,6 +550,11 @@ class Sched:
                 self._run_handle(self.exit_handles.pop(0))
         elif k == "send":
             self._user_send(e[1])
+        elif k == "scancel":
+            self._server_cancel(e[1])
+        elif k == "ocancel":
+            if e[1] < len(self.out_futs) and self.out_futs[e[1]] is not None:
+                self.out_futs[e[1]].cancel()       # the caller gives up on the future send_request returned
         else:
             raise HarnessError("unknown event " + repr(e))
         if self.loop._ready:
@@ -595,7 +611,18 @@ class Sched:
 
     def _user_send(self, i):
         # send_request is user code running on the loop thread: run it as a loop callback
-        h = self.loop.call_soon(lambda: self.protocol.send_request("t/out", {"x": 1}, msg_id=i))
+        h = self.loop.call_soon(lambda: self.out_futs.append(self.protocol.send_request("t/out", {"x": 1}, msg_id=i)))
+        self.loop._ready.remove(h)
+        self._run_handle(h)
+
+    def _server_cancel(self, i):
+        """Server-side cancellation: cancel() on the future stored under key i, WITHOUT popping it
+        (what lsp_shutdown does to every entry, applied to one)."""
+        def go():
+            fut = self.protocol._request_futures.get(i)
+            if fut is not None:
+                fut.cancel()
+        h = self.loop.call_soon(go)
         self.loop._ready.remove(h)
         self._run_handle(h)
 
@@ -774,6 +801,10 @@ def enc_ev(e):
         return [5]
     if k == "exitcb":
         return [6]
+    if k == "scancel":
+        return [8] + enc_id(e[1])      # EndpointX.ServerCancel: only the c16 driver understands 8 and 9
+    if k == "ocancel":
+        return [9, e[1]]
     return [7] + enc_id(e[1])
 
 
